@@ -197,7 +197,7 @@ def shard_ops(shard):
                 cnt[name] = cnt.get(name, 0) + 1
         part.add(1, 1 if (n >= 3 and not exp["stack_sortable"]) else 0)
         part.outcomes.add(("passes", exp["count_stack_sorts"], exp["count_pop_stack_sorts"]))
-        if n >= 5 and exp["count_stack_sorts"] >= 3:
+        if n >= 5 and not pre and exp["count_stack_sorts"] >= 3:
             part.sample({"sub": "ops", "perm": p, "stack_sort": exp["stack_sort"],
                          "pop_stack_sort": exp["pop_stack_sort"], "quick_sort": exp["quick_sort"],
                          "count_stack_sorts": exp["count_stack_sorts"],
@@ -284,7 +284,7 @@ def shard_ss(shard):
         nontriv = 1 if ((f is not None and f != p) or (b is not None and b != p)) else 0
         part.add(1, nontriv)
         part.outcomes.add(("ss", f is not None, b is not None))
-        if nontriv and n >= 5 and f is not None:
+        if nontriv and n >= 5 and not pre and f is not None:
             part.sample({"sub": "ss", "perm": p, "image": f, "ltr_minima": D.ltr_minima(p)}, cap=1)
     return part, (n, fwd, inv)
 
@@ -375,7 +375,7 @@ def shard_families(shard):
                 cnt[f] = cnt.get(f, 0) + 1
         part.add(1, 1 if (any(vals) and not all(vals) and n >= 3) else 0)
         part.outcomes.add(tuple(vals))
-        if n >= 5 and exp["baxter"] and not exp["smooth"]:
+        if n >= 5 and not pre and exp["baxter"] and not exp["smooth"]:
             part.sample({"sub": "families", "perm": p, "members": [f for f in FAMILIES if exp[f]]},
                         cap=1)
     return part, (n, cnt)
@@ -430,6 +430,8 @@ def shard_deep(shard):
         prev = p
         part.add(1, 1 if l2 >= 2 else 0)
         part.outcomes.add(("shape", l1, l2))
+        if n == 5 and l2 >= 2 and l1 >= 3:
+            part.sample({"sub": "deep", "perm": p, "lambda1": l1, "lambda2": l2}, cap=1)
     return part
 
 
@@ -456,7 +458,7 @@ def run(ctx, only=None):
         "lengths beyond the bounds are not explored",
     ]
     n_ops = 8 if quick else 9
-    n_ss = 9 if quick else 10
+    n_ss = 8 if quick else 10
     n_fam = 8 if quick else 9
     n_greene = 7 if quick else 8
     n_bruhat = 6
